@@ -2,7 +2,7 @@
    category. Statements only; proofs in proofs/Status_p.v. *)
 From Coq Require Import ZArith QArith List Bool.
 From EosV Require Import lib.AList gen.T_eos model.World model.Status model.Engine model.Ops model.Switches model.Wf
-     proofs.Status_p proofs.Owner_p proofs.Cinv_p proofs.Runs_p.
+     proofs.Status_p proofs.Owner_p proofs.Cinv_p proofs.Runs_p proofs.RunsC_p proofs.RunsD_p.
 Import ListNotations.
 Open Scope Z_scope.
 
@@ -107,6 +107,72 @@ Example C05_history_nonvacuous :
   end.
 Proof. vm_compute. repeat split. Qed.
 
+(* ---- charges and autocharges, every history. Their state is the state of the
+   item that holds them (C05_charge_follows_container), so the table is read at
+   that state: [expected_st w st cit] is the decision table's running set for
+   state [st], the charge's own run modes and its type. The histories are those
+   of the theorem above that additionally stay inside [op_okb3] (model/Wf.v):
+   no charge or autocharge type defines an autocharge of its own and effect
+   lists are duplicate-free (flat worlds), a charge is put into a directly held
+   item, and the items of a fit about to be loaded by a solar-system or source
+   change are listed once and unloaded. The extracted driver evaluates op_okb3
+   on every generated call (counter OpOutsideFlatHyp). No bound on the history.
+   Outside flat worlds the statement is false of the pinned code before
+   ba32e94 (finding F16, scenario nested_autocharge). ---- *)
+Theorem C05_charges_run_the_table_after_every_history : forall pen ops,
+  ops_clean3b (init_sys pen) ops = true ->
+  let w := s_w (run (init_sys pen) ops) in
+  forall c cit, get_item w c = Some cit -> ~ direct cit ->
+    (i_loaded cit = None -> i_running cit = []) /\
+    (i_loaded cit <> None -> forall st r, item_state w c = Some st -> expected_st w st cit = Some r ->
+                             set_equiv (i_running cit) r).
+Proof. exact charges_run_the_table. Qed.
+
+(* ... and in those worlds a charge / autocharge holds nothing itself and is on a fit whenever loaded *)
+Theorem C05_charges_are_leaves_after_every_history : forall pen ops,
+  ops_clean3b (init_sys pen) ops = true ->
+  let w := s_w (run (init_sys pen) ops) in
+  forall c cit, get_item w c = Some cit -> ~ direct cit ->
+    i_charge cit = None /\ i_autos cit = [] /\ (i_loaded cit <> None -> item_fit w c <> None).
+Proof. exact charges_are_leaves. Qed.
+
+(* each single operation keeps the larger invariant *)
+Theorem C05_every_operation_keeps_charge_running_table : forall x o,
+  KINV (s_w x) -> op_okb2 (clear_err (s_w x)) o = true -> op_okb3 (clear_err (s_w x)) o = true ->
+  w_err (s_w (fst (step x o))) = None -> KINV (s_w (fst (step x o))).
+Proof. intros x o I H2 H3 He. apply step_KINV; [exact I|now apply op_okb2_ok|now apply op_okb3_ok|exact He]. Qed.
+
+(* non-vacuity: a module (type 3200) whose effect 2005 defines an autocharge of type 3300, loaded with a
+   charge of type 3400 and switched to active: the charge runs its passive effect, the autocharge its passive
+   effect and its default active effect -- the table at the module's state *)
+Definition c05c_universe : universe :=
+  mkUniverse []
+    [(EffectId_online, mk_effect 4 false); (2001, mk_effect 1 false); (2002, mk_effect 5 false);
+     (2005, mkEffect 1 None None [] false (Some 900)); (2010, mk_effect 0 false); (2011, mk_effect 1 false);
+     (2012, mk_effect 0 false)]
+    [(3100, mkType None None [] [] None []);
+     (3200, mkType None None [(900, (3300 # 1)%Q)] [EffectId_online; 2001; 2002; 2005] (Some 2001) []);
+     (3300, mkType None None [] [2010; 2011] (Some 2011) []);
+     (3400, mkType None None [] [2012; 2011] None [])]
+    [].
+Definition c05c_demo : list op :=
+  [ ODefSource 1 c05c_universe; ONewSolsys 1; ONewItem 10 CShip 3100 1 0; ONewItem 12 CModHigh 3200 1 0;
+    ONewItem 13 CCharge 3400 0 0;
+    ONewFit 1 2; OSource 1 (Some 1%nat); OSolsysAdd 1 1; OSlot 1 SlShip (Some 10%nat);
+    ORackAppend 1 RHigh 12; OCharge 12 (Some 13%nat); OState 12 State_active ]%Z.
+Example C05_charge_history_nonvacuous :
+  ops_clean3b (init_sys []) c05c_demo = true /\
+  let w := s_w (run (init_sys []) c05c_demo) in
+  match get_item w 13, get_item w 1000 with
+  | Some ch, Some au =>
+    i_cls ch = CCharge /\ i_loaded ch = Some 1%nat /\ item_state w 13 = Some State_active /\
+    i_running ch = [2012] /\ expected_st w State_active ch = Some [2012] /\
+    i_cls au = CAutocharge /\ i_loaded au = Some 1%nat /\ item_state w 1000 = Some State_active /\
+    i_running au = [2010; 2011] /\ expected_st w State_active au = Some [2010; 2011]
+  | _, _ => False
+  end.
+Proof. vm_compute. repeat split. Qed.
+
 (* non-vacuity: a module type with an online, an active default and an overload
    effect; at state active exactly online + default run *)
 Example C05_nonvacuous :
@@ -128,3 +194,6 @@ Print Assumptions C05_ability_set_get.
 Print Assumptions C05_running_set_is_the_table_after_every_history.
 Print Assumptions C05_every_operation_keeps_running_table.
 Print Assumptions C05_load_unload_keep_running_table.
+Print Assumptions C05_charges_run_the_table_after_every_history.
+Print Assumptions C05_charges_are_leaves_after_every_history.
+Print Assumptions C05_every_operation_keeps_charge_running_table.
